@@ -120,6 +120,21 @@ Sbc16F(hl, v, c) ==
      + (IF (hl % 4096) - (v % 4096) - c < 0 THEN FH ELSE 0)
      + (IF ov_ THEN FPV ELSE 0) + FN + (IF res < 0 THEN FC ELSE 0)
 
+\* accumulator/flag operations of x=0,z=7: 0 RLCA 1 RRCA 2 RLA 3 RRA 4 DAA 5 CPL 6 SCF 7 CCF -> <<A', F'>>
+AccOp(y, a, f) ==
+  CASE y = 0 -> LET res == ((a * 2) % 256) + Bit(a,7) IN << res, And8(f, 196) + And8(res, 40) + Bit(a,7) >>
+    [] y = 1 -> LET res == (a \div 2) + (128 * Bit(a,0)) IN << res, And8(f, 196) + And8(res, 40) + Bit(a,0) >>
+    [] y = 2 -> LET res == ((a * 2) % 256) + (f % 2) IN << res, And8(f, 196) + And8(res, 40) + Bit(a,7) >>
+    [] y = 3 -> LET res == (a \div 2) + (128 * (f % 2)) IN << res, And8(f, 196) + And8(res, 40) + Bit(a,0) >>
+    [] y = 4 -> Daa(a, f)
+    [] y = 5 -> LET res == 255 - a IN << res, And8(f, 197) + And8(res, 40) + FH + FN >>
+    [] y = 6 -> << a, And8(f, 196) + FC >>
+    [] y = 7 -> << a, And8(f, 196) + (FH * (f % 2)) + (1 - (f % 2)) >>
+
+\* BIT y,v : bits 5,3 copied from the operand (register forms; memory forms take them from MEMPTR -> masked)
+BitF(y, v, f) == (IF Bit(v, y) = 0 THEN FZ + FPV ELSE 0) + (IF y = 7 /\ Bit(v, 7) = 1 THEN FS ELSE 0)
+                 + And8(v, 40) + FH + (f % 2)
+
 \* condition cc[y]: NZ Z NC C PO PE P M
 Cond(y, f) == CASE y = 0 -> Bit(f,6) = 0 [] y = 1 -> Bit(f,6) = 1
                 [] y = 2 -> Bit(f,0) = 0 [] y = 3 -> Bit(f,0) = 1
@@ -213,26 +228,8 @@ MainPage(s, pc0, o, ix) ==
     [] x = 0 /\ z = 6 /\ y = 6 ->
          IF ix = 0 THEN E(None, St8(ma, n1), <<>>, 2, 10)
          ELSE E(None, St8(ma, n2), <<>>, 3, 15)
-    [] x = 0 /\ z = 7 /\ y = 0 ->
-         LET res == ((a * 2) % 256) + Bit(a,7) IN
-         E(U2(rA, res, rF, And8(f, 196) + And8(res, 40) + Bit(a,7)), <<>>, <<>>, 1, 4)
-    [] x = 0 /\ z = 7 /\ y = 1 ->
-         LET res == (a \div 2) + (128 * Bit(a,0)) IN
-         E(U2(rA, res, rF, And8(f, 196) + And8(res, 40) + Bit(a,0)), <<>>, <<>>, 1, 4)
-    [] x = 0 /\ z = 7 /\ y = 2 ->
-         LET res == ((a * 2) % 256) + (f % 2) IN
-         E(U2(rA, res, rF, And8(f, 196) + And8(res, 40) + Bit(a,7)), <<>>, <<>>, 1, 4)
-    [] x = 0 /\ z = 7 /\ y = 3 ->
-         LET res == (a \div 2) + (128 * (f % 2)) IN
-         E(U2(rA, res, rF, And8(f, 196) + And8(res, 40) + Bit(a,0)), <<>>, <<>>, 1, 4)
-    [] x = 0 /\ z = 7 /\ y = 4 -> LET df == Daa(a, f) IN E(U2(rA, df[1], rF, df[2]), <<>>, <<>>, 1, 4)
-    [] x = 0 /\ z = 7 /\ y = 5 ->
-         LET res == 255 - a IN
-         E(U2(rA, res, rF, And8(f, 197) + And8(res, 40) + FH + FN), <<>>, <<>>, 1, 4)
-    [] x = 0 /\ z = 7 /\ y = 6 ->        \* SCF: bits 5,3 are model-dependent -> masked
-         Em(U1(rF, And8(f, 196) + FC), <<>>, <<>>, 1, 4, 215)
-    [] x = 0 /\ z = 7 /\ y = 7 ->        \* CCF
-         Em(U1(rF, And8(f, 196) + (FH * (f % 2)) + (1 - (f % 2))), <<>>, <<>>, 1, 4, 215)
+    [] x = 0 /\ z = 7 ->        \* RLCA RRCA RLA RRA DAA CPL SCF CCF ; SCF/CCF bits 5,3 are model-dependent -> masked
+         LET af == AccOp(y, a, f) IN Em(U2(rA, af[1], rF, af[2]), <<>>, <<>>, 1, 4, IF y > 5 THEN 215 ELSE 255)
     [] x = 1 /\ y = 6 /\ z = 6 ->        \* HALT (HaltAs4TSteps), see Halt below
          LET t2 == r[rT] + 4 + pt
              wake == r[rIFF] = 1 /\ (t2 % s.frame) < s.ia
@@ -311,8 +308,7 @@ CBPage(s, pc0, ix) ==
   IN
   CASE x = 0 -> Eff(upd @@ U1(rF, Rot(y, v, f)[2]), wr, <<>>, W16(pc0 + len), t(8, 15, 23), 2, 255)
     [] x = 1 ->      \* BIT: bits 5,3 come from internal state (MEMPTR) for memory forms -> masked
-         Eff(U1(rF, (IF Bit(v, y) = 0 THEN FZ + FPV ELSE 0) + (IF y = 7 /\ Bit(v, 7) = 1 THEN FS ELSE 0) + FH + (f % 2)),
-             <<>>, <<>>, W16(pc0 + len), t(8, 12, 20), 2, IF mem THEN 215 ELSE 215)
+         Eff(U1(rF, BitF(y, v, f)), <<>>, <<>>, W16(pc0 + len), t(8, 12, 20), 2, IF mem THEN 215 ELSE 255)
     [] OTHER -> Eff(upd, wr, <<>>, W16(pc0 + len), t(8, 15, 23), 2, 255)
 
 -----------------------------------------------------------------------------
